@@ -6187,13 +6187,13 @@ impl BytecodeVM {
         // Check if there's a try handler with a finally block between us and the target
         let target_try_depth = try_depth as usize;
 
-        // Find the first try handler ABOVE target depth that has a finally block
+        // Find the innermost try handler ABOVE target depth that has a finally block
         if let Some(handler_idx) = self
             .try_stack
             .iter()
             .enumerate()
             .skip(target_try_depth)
-            .find(|(_, h)| h.finally_ip != 0)
+            .rfind(|(_, h)| h.finally_ip != 0)
             .map(|(i, _)| i)
         {
             // There's a finally block that needs to run
@@ -6243,13 +6243,13 @@ impl BytecodeVM {
         // Check if there's a try handler with a finally block between us and the target
         let target_try_depth = try_depth as usize;
 
-        // Find the first try handler ABOVE target depth that has a finally block
+        // Find the innermost try handler ABOVE target depth that has a finally block
         if let Some(handler_idx) = self
             .try_stack
             .iter()
             .enumerate()
             .skip(target_try_depth)
-            .find(|(_, h)| h.finally_ip != 0)
+            .rfind(|(_, h)| h.finally_ip != 0)
             .map(|(i, _)| i)
         {
             // There's a finally block that needs to run
